@@ -1,16 +1,17 @@
 (** Case runner for the lock model: the recorded per-thread lock sequences of a multi-threaded run are checked
-    against the discipline for a rank certificate computed outside (harness mode [mt], verified checker). *)
+    against the discipline for a certificate computed outside (harness mode [mt], verified checker). *)
 From Axv Require Import Base.Bytes Base.Show Model.Locks.
 Open Scope string_scope.
 
-Fixpoint first_bad (rank : N -> N) (progs : list (list act)) (i : N) : option N :=
+Fixpoint first_bad (cls : N -> N) (gate : N -> option N) (progs : list (list act)) (i : N) : option N :=
   match progs with
   | [] => None
-  | p :: r => if disciplined rank [] p then first_bad rank r (i + 1)%N else Some i
+  | p :: r => if disciplined cls gate [] p then first_bad cls gate r (i + 1)%N else Some i
   end.
 
-Definition check_locks_case (ranks : list (N * N)) (progs : list (list act)) : string :=
-  match first_bad (rank_of ranks) progs 0%N with
+(** [classes]: object -> class; [gates]: class -> gate object *)
+Definition check_locks_case (classes gates : list (N * N)) (progs : list (list act)) : string :=
+  match first_bad (rank_of classes) (gate_of gates) progs 0%N with
   | None => "ok"
   | Some i => "sequence " ++ showN i ++ " leaves the lock discipline"
   end.
